@@ -273,9 +273,12 @@ def cap_equal_lemma(X, st, e):
     st0 = st.cp()
     st0.meta = dict(st.meta)
     st0.meta.pop("old_heap", None)
-    c1, c2 = _cap(X, st0, selfv, n, d), _cap(X, st0, selfv, s_, z3.IntVal(8))
+    d8 = fresh("d8")
+    # the eighth-note capacity is written with a symbolic denominator first, so that it is the same term the decoder fold unfolds to
+    c1, c2 = _cap(X, st0, selfv, n, d), z3.substitute(_cap(X, st0, selfv, s_, d8), (d8, z3.IntVal(8)))
     ppqn = X.read_field(st, selfv, "ppqn").v
-    return BoolV(z3.Implies(z3.And(s_ * d == 8 * n, d > 0, n >= 0, s_ >= 0, ppqn > 0), c1 == c2))
+    exact = z3.Implies(z3.And(d > 0, (8 * n) % d == 0, s_ == (8 * n) / d), s_ * d == 8 * n)        # instance of lemma exact_div
+    return BoolV(z3.And(exact, z3.Implies(z3.And(s_ * d == 8 * n, d > 0, n >= 0, s_ >= 0, ppqn > 0), c1 == c2)))
 
 
 @specfun
@@ -363,16 +366,22 @@ contract(f"{TK}.tokenise",
                    " and (state_dict['prv_value'] == -1 or state_dict['prv_value'] == dfold_g(self, tokens, len(tokens), 'val'))"
                    " and (state_dict['prv_velocity'] == -1 or state_dict['prv_velocity'] == dfold_g(self, tokens, len(tokens), 'vel'))")],
          lemma_at=[("tdiv_frac", "cur_time_signature_numerator = msg_numerator", "cap_equal_lemma(self, msg_numerator, msg_denominator, scaled)")],
+         # summary of the trusted front end (set_channel(i) for i < num_tracks, merge, pairing): the channels that come out are the track indices
+         assume_after=[("channels_are_track_indices", "interleaved_pairings = ", "forall(0, len(interleaved_pairings), lambda q: interleaved_pairings[q].g_channel < self.num_tracks)")],
          loops={
              "L0": dict(fingerprint="for (i, sequence_bar) in enumerate(sequences_bar)", inv=[("nothing_yet", f"len({TOKS}) == 0")]),
              "L1": dict(fingerprint="for interleaved_pairing in interleaved_pairings", inv=[
                  ("tokens_in_vocabulary", TOK_INV), ("clock_is_fold", CLOCK_G), ("running_values", RUN_G),
-                 ("signature", "cur_time_signature_denominator > 0 and cur_time_signature_numerator >= 0 and cur_bar_capacity_total == int(self.ppqn * 4 * cur_time_signature_numerator / cur_time_signature_denominator)")]),
-             "L2": dict(fingerprint="while (cur_time_bar > 0 or cur_time < end_time) and cur_bar_capacity_remaining > 0", dec="end_time - cur_time + ite(cur_time_bar > 0, cur_bar_capacity_total + 1, 0)", inv=[
+                 ("signature", "cur_time_signature_denominator > 0 and cur_time_signature_numerator >= 0 and cur_bar_capacity_total == int(self.ppqn * 4 * cur_time_signature_numerator / cur_time_signature_denominator)"),
+                 ("in_order", "forall(i, len(interleaved_pairings), lambda q: cur_time <= interleaved_pairings[q].g_msgs[0].time + prv_shift)")]),
+             "L2": dict(fingerprint="while (cur_time_bar > 0 or cur_time < end_time) and cur_bar_capacity_remaining > 0", dec="max(end_time - cur_time, 0) + ite(cur_time_bar > 0, 1, 0)", inv=[
                  ("tokens_in_vocabulary", TOK_INV), ("clock_is_fold", CLOCK_G), ("running_values", RUN_G)]),
              "_apply_rest.L0": dict(fingerprint="while buf_rest > 0", dec="buf_rest", inv=[
                  ("tokens_in_vocabulary", TOK_INV), ("clock_is_fold", CLOCK_G), ("running_values", RUN_G),
-                 ("rest", "buf_rest >= 0 and nxt_rest == min(buf_rest, cur_bar_capacity_remaining)")]),
+                 ("rest", "buf_rest >= 0 and nxt_rest == min(buf_rest, cur_bar_capacity_remaining)"),
+                 ("consumed", "cur_time + buf_rest == entry(cur_time) + entry(buf_rest)"),
+                 ("bar_closes", "implies(entry(buf_rest) == entry(cur_bar_capacity_remaining) and entry(buf_rest) > 0,"
+                                " (buf_rest == cur_bar_capacity_remaining and buf_rest > 0) or (buf_rest == 0 and cur_time_bar == 0))")]),
          },
          props=[])      # NOT registered yet: 433 of 17137 obligations still undecided within budget and the run takes ~25 min on 16 cores (DESIGN 11.6)
 
